@@ -305,6 +305,17 @@ func runECase(ec ECase) (*Fail, []string, map[string]int, error) {
 			if attachedBefore > 0 {
 				continue
 			}
+			if err != nil && len(vs.Replicas) == 0 {
+				// a start that failed half-way detaches what it had attached: those
+				// replicas were attached and are gone again - they have to register anew
+				for _, a := range addrs {
+					if nd := st.NodeByAddr(a); nd != nil {
+						if _, still := vs.Registered[nd.IP]; !still {
+							delete(regModel, nd.IP)
+						}
+					}
+				}
+			}
 			started := len(vs.Replicas) > 0
 			if started {
 				labels["volume-started"]++
